@@ -59,6 +59,7 @@ class VTask(Task):
         }
         w.ledger.append(entry)
         res = self._run(script, stage, ctx, sname, prior, entry)
+        entry["out"] = dict(getattr(res, "outputs", None) or {})  # what this execution published
         return res
 
     # ------------------------------------------------------------------
@@ -112,7 +113,10 @@ class VTask(Task):
             n = ctx.get("_jump_count", 0)
             if n < times:
                 entry["step"] = f"jump{n}"
-                return TaskResult.jump_to(script["target"], outputs=self._outputs(script, stage, ctx, sname))
+                outs = self._outputs(script, stage, ctx, sname)
+                if script.get("jump_out"):  # published only by an iteration that is then abandoned by the jump
+                    outs.update(self._outputs({"out": script["jump_out"]}, stage, ctx, sname))
+                return TaskResult.jump_to(script["target"], outputs=outs)
             entry["step"] = "ok"
             return TaskResult.success(outputs=self._outputs(script, stage, ctx, sname))
         if kind == "suspend":
